@@ -44,12 +44,13 @@ type injection struct {
 }
 
 type interruptCase struct {
-	Kind     string    `json:"kind"` // "interrupt"
-	Scenario scenario  `json:"scenario"`
-	Inj      injection `json:"injection"`
-	OpLog    string    `json:"oplog,omitempty"`
-	Local    string    `json:"local,omitempty"`
-	Strace   string    `json:"strace_tail,omitempty"`
+	Kind     string            `json:"kind"` // "interrupt"
+	Scenario scenario          `json:"scenario"`
+	Inj      injection         `json:"injection"`
+	OpLog    string            `json:"oplog,omitempty"`
+	Local    string            `json:"local,omitempty"`
+	Strace   string            `json:"strace_tail,omitempty"`
+	Strays   map[string]string `json:"leftover_files,omitempty"`
 }
 
 func genScenario(rng *rand.Rand, idx int, nops int) scenario {
@@ -332,17 +333,29 @@ func (sc scenario) probes(rng *rand.Rand) []string {
 	return out
 }
 
-// reloadAfter loads a fresh instance from the (possibly crashed) directory and
-// compares its decisions with the reference over everything that is on disk:
-// the entries of `local` plus the complete lines of any stray temp file (the
-// loader parses every file in the directory).
-func reloadAfter(r *vlib.Run, res runResult, sc scenario, probes []string, ic interruptCase, lf localFile) {
+// reloadAfter loads a FRESH instance from the directory exactly as the
+// interruption left it (nothing is cleaned first) and compares its decisions on
+// every probe with the last complete snapshot, i.e. the entries of `local`.
+// A divergence that is exactly explained by the lines of a leftover
+// local.tmp.* file (the loader parses every file in the directory) gets the
+// signature interrupt/leftover-tempfile-loaded; anything else
+// interrupt/reload-differs.
+func reloadAfter(r *vlib.Run, res runResult, sc scenario, probes []string, ic interruptCase, lf localFile, prev, next []string) {
 	onDisk := append([]string{}, lf.Entries...)
-	strayAdds := false
+	inLocal := map[string]bool{}
+	for _, e := range lf.Entries {
+		inLocal[e] = true
+	}
+	var strayOnly []string
+	ic.Strays = map[string]string{}
 	for _, s := range res.strays {
 		sf := readLocal(filepath.Join(res.dir, s))
+		ic.Strays[s] = sf.Raw
 		for _, e := range sf.Lines {
 			onDisk = append(onDisk, e)
+			if !inLocal[e] {
+				strayOnly = append(strayOnly, e)
+			}
 		}
 	}
 	refLocal := listsFrom(lf.Entries, sc.Whitelist)
@@ -363,25 +376,76 @@ func reloadAfter(r *vlib.Run, res runResult, sc scenario, probes []string, ic in
 		return
 	}
 	r.Count("interrupt_reload_comparisons", 1)
+	if len(res.strays) > 0 {
+		r.Count("interrupt_leftover_temp_files", len(res.strays))
+	}
+	leftoverName, other := "", ""
 	for _, p := range probes {
 		got := fresh.Exists(p)
 		r.Eval(1)
-		if got != refDisk.blocked(p) {
-			c := ic
-			r.Violation("interrupt/reload-differs", fmt.Sprintf("after the interruption a fresh instance decides %q blocked=%v; the files in the directory say %v", p, got, !got), c)
-			return
+		r.Count("interrupt_reload_probe_comparisons", 1)
+		if got == refLocal.blocked(p) {
+			continue
 		}
-		if refDisk.blocked(p) != refLocal.blocked(p) {
-			strayAdds = true
+		if len(res.strays) > 0 && got == refDisk.blocked(p) {
+			if leftoverName == "" {
+				leftoverName = p
+			}
+		} else if other == "" {
+			other = p
 		}
 	}
-	if strayAdds {
-		// observation, not judged: the statement speaks of the file `local`
-		r.Count("interrupt_reload_stray_temp_changes_decisions", 1)
+	if other != "" {
+		got := fresh.Exists(other)
+		r.Violation("interrupt/reload-differs", fmt.Sprintf("after the interruption a fresh instance decides %q blocked=%v; the complete snapshot in <dir>/local says %v (leftover temp files: %v)", other, got, !got, res.strays), ic)
+		return
 	}
-	if len(res.strays) > 0 {
-		r.Count("interrupt_stray_temp_files_left", len(res.strays))
+	if leftoverName != "" {
+		r.Count("interrupt_leftover_tempfile_changes_decisions", 1)
+		// is the leftover permanent? remove the extra entry, restart again
+		resurrected := false
+		if len(strayOnly) > 0 {
+			e := strayOnly[0]
+			func() {
+				defer func() { _ = recover() }()
+				fresh.Remove(e)
+				again := newInstance(res.dir, nil, sc.Whitelist)
+				if ok, _ := safeExists(again, e); ok && !listsFrom(readLocal(filepath.Join(res.dir, "local")).Entries, sc.Whitelist).blocked(e) {
+					resurrected = true
+					r.Count("interrupt_leftover_tempfile_resurrects_removed_entry", 1)
+				}
+			}()
+		}
+		kind := "previous"
+		if prev != nil {
+			rp, rn := listsFrom(prev, sc.Whitelist), listsFrom(next, sc.Whitelist)
+			eqNew := true
+			for _, p := range probes {
+				if refDisk.blocked(p) != rn.blocked(p) {
+					eqNew = false
+				}
+			}
+			_ = rp
+			if eqNew {
+				kind = "the interrupted (never committed) snapshot"
+				r.Count("interrupt_restart_decides_like_uncommitted_snapshot", 1)
+			} else {
+				kind = "neither the previous nor the new snapshot (part of a batch)"
+				r.Count("interrupt_restart_decides_like_partial_batch", 1)
+			}
+		}
+		r.Violation("interrupt/leftover-tempfile-loaded", fmt.Sprintf("killed during persist: <dir>/local is the previous complete snapshot %v, but the leftover %v is parsed at restart too: the fresh instance blocks %q (local alone: not blocked) and decides like %s; entries only in the leftover: %v; after Remove(%q)+restart it is blocked again: %v",
+			lf.Entries, res.strays, leftoverName, kind, strayOnly, first(strayOnly), resurrected), ic)
+		return
 	}
+	r.Count("interrupt_restart_decides_like_local_snapshot", 1)
+}
+
+func first(s []string) string {
+	if len(s) == 0 {
+		return ""
+	}
+	return s[0]
 }
 
 func judgeKill(r *vlib.Run, res runResult, sc scenario, inj injection, probes []string) {
@@ -444,8 +508,8 @@ func judgeKill(r *vlib.Run, res runResult, sc scenario, inj injection, probes []
 			r.Violation("interrupt/local-not-a-snapshot", fmt.Sprintf("killed at %s during op %d; <dir>/local=%v equals no state of the op sequence (previous %v, new %v)", kind, i, lf.Entries, st[i], st[i+1]), ic)
 		}
 	}
-	if lf.Present && lf.Complete {
-		reloadAfter(r, res, sc, probes, ic, lf)
+	if (lf.Present && lf.Complete) || (!lf.Present && !anyPersistBefore) {
+		reloadAfter(r, res, sc, probes, ic, lf, st[i], st[i+1])
 	}
 }
 
@@ -522,8 +586,32 @@ func judgeError(r *vlib.Run, res runResult, sc scenario, inj injection, probes [
 		}
 	}
 	if lf.Present && lf.Complete {
-		reloadAfter(r, res, sc, probes, ic, lf)
+		reloadAfter(r, res, sc, probes, ic, lf, nil, nil)
 	}
+}
+
+// hitUnrelated reports that the injection landed on a syscall that does not
+// belong to the persist path (not on a file of the blocklist directory).
+func hitUnrelated(res runResult, inj injection) bool {
+	unrelated := func(l string) bool {
+		k := classifyCall(l, res.dir)
+		return strings.HasPrefix(k, "other") || k == "unknown"
+	}
+	switch inj.Mode {
+	case "kill":
+		return !res.ended && res.lastCall != "" && unrelated(res.lastCall)
+	case "error":
+		if len(res.injected) == 0 {
+			return false
+		}
+		for _, l := range res.injected {
+			if !unrelated(l) {
+				return false
+			}
+		}
+		return true
+	}
+	return false
 }
 
 // countCalls returns how many write / fsync / renameat calls the uninjected
@@ -599,9 +687,24 @@ func interruptionPart(r *vlib.Run) {
 		go func(j job) {
 			defer wg.Done()
 			defer func() { <-sem }()
-			res, err := runChild(j.sc, j.inj, 120*time.Second)
-			if err != nil {
-				r.Inconclusive("interruption child failed to run: " + err.Error())
+			var res runResult
+			var err error
+			for attempt := 0; attempt < 4; attempt++ {
+				res, err = runChild(j.sc, j.inj, 120*time.Second)
+				if err != nil {
+					r.Inconclusive("interruption child failed to run: " + err.Error())
+					return
+				}
+				if !hitUnrelated(res, j.inj) {
+					break
+				}
+				// when=N counts every write(2) of the thread; now and then the Go
+				// runtime wakes its netpoller (eventfd write) on that thread first.
+				// Such a run says nothing about persist(): repeat it.
+				r.Count("interrupt_injection_hit_unrelated_syscall_retried", 1)
+			}
+			if hitUnrelated(res, j.inj) {
+				r.Count("interrupt_injection_hit_unrelated_syscall_skipped", 1)
 				return
 			}
 			if j.inj.Mode == "kill" {
